@@ -436,6 +436,11 @@ func GenBankParser(state *pars.State, result *pars.Result) error {
 
 	for end(state, result) != nil {
 		if err := parser(state, result); err != nil {
+			if dig(err) == io.EOF {
+				// The LOCUS line has been read, so the input ends inside a
+				// record: this is not the clean end of a stream.
+				return pars.NewError("unexpected end of input in GenBank record", state.Position())
+			}
 			if dig(err) != errGenBankExtra {
 				return err
 			}
